@@ -48,6 +48,8 @@ fn main() {
         .build()
         .expect("runtime");
     let mut node = rt.block_on(Node::start());
+    let bg: std::sync::Arc<std::sync::Mutex<std::collections::HashMap<String, (String, Vec<u8>)>>> =
+        std::sync::Arc::new(std::sync::Mutex::new(std::collections::HashMap::new()));
     reply("meta", b"{\"ready\":true}");
 
     let stdin = std::io::stdin();
@@ -111,8 +113,74 @@ fn main() {
                     meta_reply(json!({"ok": true}));
                 }
                 "release" => {
-                    hooks::release();
+                    match parts.get(1).copied() {
+                        Some(name) => hooks::release_point(name),
+                        None => hooks::release(),
+                    }
                     meta_reply(json!({"ok": true}));
+                }
+                "disarmpoint" => {
+                    hooks::disarm_point(parts.get(1).copied().unwrap_or(""));
+                    meta_reply(json!({"ok": true}));
+                }
+                "waitparkedat" => {
+                    let name = parts.get(1).copied().unwrap_or("");
+                    let ms: u64 = parts.get(2).and_then(|x| x.parse().ok()).unwrap_or(5000);
+                    let ok = hooks::wait_parked_at(name, Duration::from_millis(ms));
+                    meta_reply(json!({"ok": ok, "parked": hooks::parked_now()}));
+                }
+                "parked" => meta_reply(json!({"parked": hooks::parked_now()})),
+                "dropcache" => {
+                    // diagnostic: invalidate one global cache for a segment label: @dropcache <which> <label>
+                    use snel_db::engine::core::read::cache::*;
+                    let which = parts.get(1).copied().unwrap_or("all");
+                    let label = parts.get(2).copied().unwrap_or("00000");
+                    if which == "handle" || which == "all" { GlobalColumnHandleCache::instance().invalidate_segment(label); }
+                    if which == "surf" || which == "all" { GlobalZoneSurfCache::instance().invalidate_segment(label); }
+                    if which == "zoneindex" || which == "all" { GlobalZoneIndexCache::instance().invalidate_segment(label); }
+                    if which == "catalog" || which == "all" { GlobalIndexCatalogCache::instance().invalidate_segment(label); }
+                    if which == "block" || which == "all" { GlobalColumnBlockCache::instance().invalidate_segment(label); }
+                    if which == "enum" || which == "all" { global_enum_cache::GlobalEnumCache::instance().invalidate_segment(label); }
+                    if which == "xor" || which == "all" { global_zone_xor_filter_cache::GlobalZoneXorFilterCache::instance().invalidate_segment(label); }
+                    meta_reply(json!({"ok": true}));
+                }
+                "bg" => {
+                    // @bg <id> <command...> : run a command in the background; fetch the reply with @wait <id>
+                    let id = parts.get(1).copied().unwrap_or("0").to_string();
+                    let cmdline = meta
+                        .splitn(3, char::is_whitespace)
+                        .nth(2)
+                        .unwrap_or("")
+                        .to_string();
+                    let node_ctx = node.clone_for_bg();
+                    let slot = std::sync::Arc::clone(&bg);
+                    rt.spawn(async move {
+                        let out = node_ctx.exec(&cmdline).await;
+                        let (kind, bytes) = match out {
+                            Outcome::Ok(b) => ("ok", b),
+                            Outcome::ParseErr(s) => ("perr", s.into_bytes()),
+                            Outcome::Panic(s) => ("panic", s.into_bytes()),
+                        };
+                        slot.lock().unwrap().insert(id, (kind.to_string(), bytes));
+                    });
+                    meta_reply(json!({"ok": true}));
+                }
+                "wait" => {
+                    let id = parts.get(1).copied().unwrap_or("0").to_string();
+                    let ms: u64 = parts.get(2).and_then(|x| x.parse().ok()).unwrap_or(10000);
+                    let deadline = std::time::Instant::now() + Duration::from_millis(ms);
+                    let mut got = None;
+                    while std::time::Instant::now() < deadline {
+                        if let Some(v) = bg.lock().unwrap().remove(&id) {
+                            got = Some(v);
+                            break;
+                        }
+                        std::thread::sleep(Duration::from_millis(2));
+                    }
+                    match got {
+                        Some((kind, bytes)) => reply(&kind, &bytes),
+                        None => reply("err", b"bg command not finished"),
+                    }
                 }
                 "waitparked" => {
                     let ms: u64 = parts.get(1).and_then(|x| x.parse().ok()).unwrap_or(5000);
